@@ -76,7 +76,7 @@ def run(report, p):
         sites = rename_rewrite_sites(p, pr, f)
         r2.instance(f, sites[0][1] if sites else f.node, f.name)
         arg0 = call.args[0] if call.args else None
-        direct = arg0 is not None and any(is_call(a, "set_of_file_paths") for o in pr.origins(arg0, f) for a in alts(pr.inline(o, depth=2)))
+        direct = arg0 is not None and any(is_call(o, "set_of_file_paths") for o in pr.origins(arg0, f))
         if not sites and direct:
             r2.check(False, f, call, "the recorded paths go to the missing-file check without being mapped through the rename map: every file renamed under -dr is reported missing by this command", construct="expected set without rename rewrite")
             continue
